@@ -98,6 +98,8 @@ def cases(rng, tier, X):
     # universal automata schedule (all public calls, missing objects, near-colliding keys, bridged frames, every deadline): this check's predicate on it
     for k in range(60 if tier == 'quick' else 6000):
         out.append(('au%d' % k, auto.schedule(rng)))
+        if k % 3 == 0:
+            out.append(('au2_%d' % k, auto.schedule2(rng)))      # two responders in one process, interleaved on the shared clock
     return out
 
 
